@@ -69,6 +69,7 @@ func runC18(p *core.Prog, r *core.Result) {
 		"R18.9 an Events implementation that wraps another one (dot and JSON renderers) forwards each event exactly once, on every path, to the same-named method of the wrapped one with its own arguments",
 		"R18.8 target output goes to the observer of the run: if Project.events can be replaced after load (run(callback=...)), every line writer is bound to the project and reads the current Events at delivery time instead of the one captured at load",
 		"R18.11 an Events implementation that buffers a target's lines per label (to show them with a failure) starts every visit with an empty buffer: the record its TargetEvaluating handler sets up is newly allocated, or its line buffer is reset there - otherwise a target visited twice by one renderer (watch mode, the REPL) is shown with the output of its earlier visits again",
+		"R18.12 an Events implementation does not die on a well-formed event: in the Events methods of the module (and the same-package functions they call) no value obtained from a fallible call whose error result is discarded is then used in an unchecked type assertion - the JSON renderer encodes the environment diff with json.encode, which fails for ordinary values (a dict with integer keys, a non-finite float), and a Go panic on a runner goroutine ends the stream without 'evaluating', terminal events or run-done",
 		"R18.6 the partial-line buffer never retains (a slice of) the caller's chunk: it only grows by copying appends",
 		"R18.5 lineWriter.Write conserves bytes: the unconsumed chunk is cut only at its first newline (c[:nl], c[nl+1:]); the rest becomes the next cursor; per newline exactly one line is delivered - c[:nl] alone only where the buffer is known empty, otherwise the buffer after c[:nl] was appended; without a newline the whole rest is buffered",
 		"R18.4 whenever a lineWriter method hands its buffered partial line to Events.Print it resets the buffer before returning (no byte is delivered twice)",
@@ -605,6 +606,9 @@ func runC18(p *core.Prog, r *core.Result) {
 
 	// ---- R18.8 output is delivered to the observer of the run
 	checkOutputSink(p, r)
+
+	// ---- R18.12 an observer does not die on a well-formed event
+	checkObserversDoNotPanic(p, r, "R18.12")
 
 	// ---- R18.11 a renderer's per-target output buffer starts empty at every visit
 	checkRendererBufferPerVisit(p, r, "R18.11")
@@ -1218,6 +1222,125 @@ func eventsMethods(p *core.Prog) map[string]bool {
 		}
 	}
 	return out
+}
+
+// checkObserversDoNotPanic implements R18.12 (a contradiction rule: the error is believed impossible and discarded, then the
+// value is used as if the call had succeeded).
+func checkObserversDoNotPanic(p *core.Prog, r *core.Result, rule string) {
+	names := eventsMethods(p)
+	seen := map[*ssa.Function]bool{}
+	var fns []*ssa.Function
+	var visit func(f *ssa.Function, depth int)
+	visit = func(f *ssa.Function, depth int) {
+		if f == nil || seen[f] || f.Blocks == nil || !core.InModule(f) || depth > 3 {
+			return
+		}
+		seen[f] = true
+		fns = append(fns, f)
+		for _, g := range core.WithAnons(f) {
+			if g != f {
+				visit(g, depth)
+			}
+			for _, c := range core.Calls(g) {
+				if cal := core.Callee(c); cal != nil && cal.Pkg == f.Pkg {
+					visit(cal, depth+1)
+				}
+			}
+		}
+	}
+	for _, fn := range p.ModuleFuncs() {
+		if fn.Signature.Recv() != nil && names[fn.Name()] && fn.Parent() == nil {
+			// an implementation of the interface: its receiver type has all Events methods
+			ms := p.SSA.MethodSets.MethodSet(fn.Signature.Recv().Type())
+			all := true
+			for n := range names {
+				if ms.Lookup(fn.Pkg.Pkg, n) == nil && ms.Lookup(nil, n) == nil {
+					all = false
+				}
+			}
+			if all {
+				visit(fn, 0)
+			}
+		}
+	}
+	sort.Slice(fns, func(i, j int) bool { return fns[i].String() < fns[j].String() })
+	// the value comes from a fallible call whose error nobody looks at
+	var discarded func(v ssa.Value, seenV map[ssa.Value]bool) *ssa.Call
+	discarded = func(v ssa.Value, seenV map[ssa.Value]bool) *ssa.Call {
+		if seenV[v] {
+			return nil
+		}
+		seenV[v] = true
+		switch x := v.(type) {
+		case *ssa.Phi:
+			for _, e := range x.Edges {
+				if c := discarded(e, seenV); c != nil {
+					return c
+				}
+			}
+		case *ssa.MakeInterface:
+			return discarded(x.X, seenV)
+		case *ssa.ChangeInterface:
+			return discarded(x.X, seenV)
+		case *ssa.UnOp:
+			if x.Op == token.MUL {
+				if al, ok := x.X.(*ssa.Alloc); ok {
+					for _, ref := range *al.Referrers() {
+						if st, ok := ref.(*ssa.Store); ok && st.Addr == ssa.Value(al) {
+							if c := discarded(st.Val, seenV); c != nil {
+								return c
+							}
+						}
+					}
+				}
+			}
+		case *ssa.Extract:
+			c, ok := x.Tuple.(*ssa.Call)
+			if !ok {
+				return nil
+			}
+			res := c.Call.Signature().Results()
+			if res.Len() < 2 || !types.Implements(res.At(res.Len()-1).Type(), errorIface()) || x.Index == res.Len()-1 {
+				return nil
+			}
+			errUsed := false
+			for _, ref := range *c.Referrers() {
+				if e, ok := ref.(*ssa.Extract); ok && e.Index == res.Len()-1 {
+					for _, r2 := range *e.Referrers() {
+						if _, dbg := r2.(*ssa.DebugRef); !dbg {
+							errUsed = true
+						}
+					}
+				}
+			}
+			if !errUsed {
+				return c
+			}
+		}
+		return nil
+	}
+	nAssert := 0
+	for _, f := range fns {
+		k := 0
+		core.Instrs(f, func(in ssa.Instruction) {
+			ta, ok := in.(*ssa.TypeAssert)
+			if !ok || ta.CommaOk {
+				return
+			}
+			nAssert++
+			if c := discarded(ta.X, map[ssa.Value]bool{}); c != nil {
+				k++
+				what := c.Call.Value.Name()
+				if cal := core.Callee(c); cal != nil {
+					what = core.CalleeKey(cal)
+				}
+				r.Bad(rule, fmt.Sprintf("%s#asserts-result-of-unchecked-call-%d", fname(f), k), p.InstrPos(ta), "the result of %s (called at %s, error discarded) is asserted to %s without a check: when the call fails the value is nil and the observer panics on a runner goroutine - the event stream ends without this event, the terminal events and run-done", what, p.InstrPos(c), shortType(ta.AssertedType))
+			}
+		})
+	}
+	r.Analysed["observer_functions"] = len(fns)
+	r.OK(rule, "module#observers-checked", "-", "%d unchecked type assertion(s) in %d function(s) of Events implementations examined; none takes the result of a fallible call whose error is discarded (violations are listed separately)", nAssert, len(fns))
+	r.Floor(rule, len(fns), 10, "functions of Events implementations")
 }
 
 // checkRendererBufferPerVisit implements R18.11.
